@@ -367,3 +367,5 @@ for _pid, _what in (("C04", "zero columns / rows of the inner extent of a matrix
     CHECKS[_pid]["technique"] += "; zero-padding law"
 CHECKS["C05"]["text"] += (" Round 17: float64 images and kernels whose products and partial sums need 25..27 significant bits (exact in float64, "
                           "exact expected values from TLC): an accumulation narrower than the declared type is a violation (MC_C05!WideProductCases).")
+CHECKS["C04"]["text"] += (" Round 17: MatMul of float64 and int64 operands whose products and sums need 25..26 significant bits (exact expected "
+                          "values): a product formed or accumulated in a narrower type than the declared one is a violation (MC_C04!WideMatMulCase).")
